@@ -1,3 +1,26 @@
 package main
 
-func cmdSelftest(args []string) int { return 2 }
+import (
+	"os"
+	"os/exec"
+	"path/filepath"
+)
+
+// outDir: where evidence and replay files go (/verif, unless GOVC_OUT redirects them - used by the self-test so that
+// runs on deliberately broken copies never overwrite the evidence of the real tree)
+func outDir(eng *Engine) string {
+	return envOr("GOVC_OUT", eng.verif)
+}
+
+// cmdSelftest runs the must-fail corpus (/verif/bin/selftest).
+func cmdSelftest(args []string) int {
+	cmd := exec.Command(filepath.Join(envOr("GOVC_VERIF", "/verif"), "bin", "selftest"), args...)
+	cmd.Stdout, cmd.Stderr = os.Stdout, os.Stderr
+	if err := cmd.Run(); err != nil {
+		if ee, ok := err.(*exec.ExitError); ok {
+			return ee.ExitCode()
+		}
+		return 2
+	}
+	return 0
+}
